@@ -62,6 +62,7 @@ type wPkt struct {
 	Dup  bool   `json:"dup"`
 	Open bool   `json:"open"`
 	At   int64  `json:"at"`
+	Frag int    `json:"frag"` // 0: one IP packet; 1: two IPv4 fragments in order; 2: the fragments in reverse order
 }
 type wBatch struct {
 	Files   []int  `json:"files"`
@@ -97,6 +98,7 @@ type wConc struct {
 	Packets  []int    `json:"packets"` // packets per file
 	BulkGoal int      `json:"bulkGoal"`
 	Wrap     []bool   `json:"wrap"` // a direction's sequence numbers wrap inside the conversation
+	Fragmented int    `json:"fragmented"` // packets written as two IP fragments
 }
 
 type wEndpoint struct {
@@ -226,6 +228,47 @@ func (z *wSerializer) packet(src, dst wEndpoint, l4 gopacket.SerializableLayer, 
 		return nil, err
 	}
 	return append([]byte(nil), z.buf.Bytes()...), nil
+}
+
+// wFragment splits a serialised IPv4 packet (after linkLen bytes of link header) into two IP fragments; the first
+// carries the transport header and at least 8 bytes of it.  Returns nil when the packet is too small to split.
+func wFragment(data []byte, linkLen int, id uint16) [][]byte {
+	if len(data) < linkLen+20 || data[linkLen]>>4 != 4 {
+		return nil
+	}
+	ihl := int(data[linkLen]&0x0f) * 4
+	payload := data[linkLen+ihl:]
+	if len(payload) < 16 {
+		return nil
+	}
+	cut := (len(payload) / 2) &^ 7
+	if cut < 8 {
+		cut = 8
+	}
+	mk := func(part []byte, off int, more bool) []byte {
+		p := append([]byte(nil), data[:linkLen+ihl]...)
+		h := p[linkLen:]
+		total := ihl + len(part)
+		h[2], h[3] = byte(total>>8), byte(total)
+		h[4], h[5] = byte(id>>8), byte(id)
+		fo := uint16(off / 8)
+		if more {
+			fo |= 0x2000
+		}
+		h[6], h[7] = byte(fo>>8), byte(fo) // DF cleared
+		h[10], h[11] = 0, 0
+		sum := uint32(0)
+		for i := 0; i < ihl; i += 2 {
+			sum += uint32(h[i])<<8 | uint32(h[i+1])
+		}
+		for sum>>16 != 0 {
+			sum = sum&0xffff + sum>>16
+		}
+		cs := ^uint16(sum)
+		h[10], h[11] = byte(cs>>8), byte(cs)
+		return append(p, part...)
+	}
+	return [][]byte{mk(payload[:cut], 0, true), mk(payload[cut:], cut, false)}
 }
 
 // unitsBefore: units of direction d in messages before msg m (1-based), plus offset inside m
@@ -473,7 +516,27 @@ func wBuildWorld(s *wSchedule, stage string, bulkGoal int) (*wWorld, error) {
 			return nil, err
 		}
 		emitted[wi] = data
-		if err := write(p.File, at, data); err != nil {
+		var frags [][]byte
+		if p.Frag != 0 && !p.Dup {
+			linkLen := 0
+			if w.conc.Link == "eth" {
+				linkLen = 14
+			}
+			frags = wFragment(data, linkLen, uint16(wi+1))
+		}
+		if frags != nil {
+			if p.Frag == 2 {
+				frags[0], frags[1] = frags[1], frags[0]
+			}
+			w.conc.Fragmented++
+			for _, fd := range frags {
+				if err := write(p.File, at, fd); err != nil {
+					return nil, err
+				}
+				sinceBoundary++
+			}
+			sinceBoundary--
+		} else if err := write(p.File, at, data); err != nil {
 			return nil, err
 		}
 		sinceBoundary++
